@@ -85,7 +85,7 @@ package main
 //@ contract diff
 //@   ensures ret2 == nil && (*format == "" || *format == "jd") ==> ret1 == (ret0 != "")
 //@   ensures ret2 == nil && *format == "patch" ==> ret1 == (ret0 != "[]")
-//@   ensures ret2 == nil && *format == "merge" ==> ret1 == (ret0 != "{}")
+//@   ensures ret2 == nil && *format == "merge" ==> ret1 == (len(diff) > 0)
 //@   ensures ret2 == nil ==> *format == "" || *format == "jd" || *format == "patch" || *format == "merge"
 //@   carries C14 C05
 
